@@ -906,7 +906,7 @@ pub fn c10_random_programs(ctx: &Ctx) {
             (g, ch, comments)
         })
     };
-    let n = ctx.tier.pick(500usize, 20_000usize);
+    let n = ctx.tier.pick(800usize, 20_000usize);
     run_cases(
         ctx,
         "c10-programs",
